@@ -534,13 +534,30 @@ def case_adjoint_options(case):
                 r = quiet(lambda: np.asarray(f(Mp, **kwargs(Mp))))
                 if not np.array_equal(Mp, snap):
                     v.append({"key": "adjoint-options/%s/input-mutated" % nm, "msg": "%s changed its argument" % where})
+                raw.append(r)
                 if r.dtype == object:
                     r = r.astype("float64")
                 return r
+            raw = []
             got = guard(v, "adjoint-options/%s/%s/%s" % (nm, cls, "integer" if integer else pack), lambda: img(g))
             t += 1
             if got is None:
                 continue
+            # a real matrix has a floating-point image, on which the library's own inverse works (the inverse of
+            # Ad(g) is Ad(g^-1)): an array of Python objects is rejected by utils.invert / utils.eig / utils.kernel
+            if raw[0].dtype.kind not in "fc":
+                v.append({"key": "adjoint-options/%s/result-dtype/%s" % (nm, "no-like-no-dtype" if cls in ("defaults", "inv") else cls),
+                          "msg": "%s has dtype %s (numpy.linalg and utils.invert / utils.eig / utils.kernel reject it)" % (where, raw[0].dtype)})
+            else:
+                from geometry_tools import utils as U
+                back = guard(v, "adjoint-options/%s/utils.invert-of-result/%s" % (nm, cls), lambda: np.asarray(U.invert(raw[0])))
+                t += 1
+                if back is not None:
+                    wi = R.gl_adjoint(gi, g) if nm == "gln_adjoint" else R.sl_adjoint(gi, g)
+                    ok, d = close(back, wi, 1e-3 if pack == "f32" else 1e-7)
+                    if not ok:
+                        v.append({"key": "adjoint-options/%s/utils.invert-of-result/%s" % (nm, cls),
+                                  "msg": "utils.invert(%s) differs from Ad(g^-1) by %.3g" % (where, d)})
             ok, d = close(got, wants[nm], tol)
             if not ok:
                 v.append({"key": "adjoint-options/%s/value/%s/%s" % (nm, cls, "integer" if integer else pack),
@@ -711,6 +728,24 @@ def case_shapes(case):
                     Z[r, c] = base[i + (r + c) % 3][r % 2, c % 2] + 1j * base[i + 1 + (r * c) % 2][c % 2, r % 2]
             pool.append(Z + 2 * np.identity(k))
         f, m = lie.slc_to_slr, 2 * k
+    elif name.startswith("o_to_pgl"):
+        # the documented inverse on arrays of shape (..., 3, 3): images of det +-1 matrices, every second one negated
+        # (-S is in O(2,1) as well and takes the other sign branch), so that a stack mixes all pivots and signs
+        variant = name.split(":")[1]
+        sl = [np.array(x, dtype="float64") for x in int_mats_2x2(2, (1, -1))]
+        pool = [(-1.0) ** i * np.asarray(lie.sl2_to_so21(a)) for i, a in enumerate(sl)]
+        k, m = 3, 2
+        if variant == "default":
+            f = lie.o_to_pgl
+        elif variant == "to_sl2":
+            from geometry_tools import hyperbolic
+            f = lambda Z: np.asarray(hyperbolic.Isometry(Z, column_vectors=True).to_sl2())
+        else:
+            Mc = np.array(FORM_CONJ[int(variant.split("=")[1])])
+            Mci = np.linalg.inv(Mc)
+            Bf = Mc.T @ np.diag([-1.0, 1.0, 1.0]) @ Mc
+            pool = [Mci @ p_ @ Mc for p_ in pool]
+            f = lambda Z: np.asarray(lie.o_to_pgl(Z, bilinear_form=Bf))
     else:
         k, m = [int(x) for x in name.split(":")[1:]]
         pool = []
@@ -722,22 +757,33 @@ def case_shapes(case):
                     Z[r, c] = base[i + (r + c) % 3][r % 2, c % 2]
             pool.append(Z)
         f = lambda Z: lie.block_include(Z, m)
+    up_to_sign = name.startswith("o_to_pgl")
     size = int(np.prod(shape)) if shape else 1
     X = np.stack([pool[(7 * i + 3) % len(pool)] for i in range(size)]).reshape(shape + (k, k))
     Y = np.stack([pool[(5 * i + 11) % len(pool)] for i in range(size)]).reshape(shape + (k, k))
-    got = f(X)
+    got = guard(v, "shapes/%s" % name.split("=")[0], lambda: np.asarray(f(X))) if up_to_sign else f(X)
     t = 1
+    if got is None:
+        return {"v": v, "t": t, "o": "%s|%r|exc" % (name, shape), "nt": True}
     if got.shape != shape + (m, m):
         v.append({"key": "shapes/%s/shape" % name.split(":")[0], "msg": "%s of an array of shape %r has shape %r" % (name, X.shape, got.shape)})
         return {"v": v, "t": t, "o": "%s|%r|shape" % (name, shape), "nt": True}
     for idx in itertools.product(*[range(s) for s in shape]):
         single = f(X[idx])
         t += 1
-        if single.shape != (m, m) or not close(got[idx], single, 1e-12)[0]:
+        if single.shape != (m, m) or not close(got[idx], single, 1e-9 if up_to_sign else 1e-12)[0]:
             v.append({"key": "shapes/%s/per-matrix" % name.split(":")[0],
                       "msg": "%s(array)[%r] differs from %s(array[%r]) for batch shape %r" % (name, idx, name, idx, shape)})
             break
-    ok, d = close(f(X @ Y), got @ f(Y))
+    if up_to_sign:
+        lhs, rhs = np.asarray(f(X @ Y)), got @ np.asarray(f(Y))
+        ok, d = lhs.shape == rhs.shape, float("inf")
+        if ok:
+            sc = 1e-7 * (1 + np.abs(rhs).reshape(shape + (-1,)).max(axis=-1))
+            dm = np.minimum(np.abs(lhs - rhs).reshape(shape + (-1,)).max(axis=-1), np.abs(lhs + rhs).reshape(shape + (-1,)).max(axis=-1))
+            ok, d = bool(np.all(dm <= sc)), float(np.max(dm))
+    else:
+        ok, d = close(f(X @ Y), got @ f(Y))
     t += 2
     if not ok:
         v.append({"key": "shapes/%s/homomorphism" % name.split(":")[0], "msg": "%s(XY) != %s(X)%s(Y) for arrays of batch shape %r (%.3g)" % (name, name, name, shape, d)})
@@ -841,6 +887,18 @@ def case_pgl_form(case):
     t += 2
     if g1 is None:
         return {"v": v, "t": t, "o": "exc", "nt": True}
+    # the same map through its generator-wise wrapper lie.hom.so21_to_sl2(bilinear_form=B) (what Representation.compose
+    # is given): bound to the direct answer, which the clauses below decide
+    from geometry_tools.lie import hom
+    w1 = guard(v, "hom.so21_to_sl2(bilinear_form=B)", lambda: np.asarray(hom.so21_to_sl2(bilinear_form=B)(S1)))
+    w2 = guard(v, "hom.so21_to_sl2(bilinear_form=B)(S, inv=)", lambda: np.asarray(hom.so21_to_sl2(bilinear_form=B)(S1, inv=np.linalg.inv(S1))))
+    t += 2
+    for how, w in (("", w1), ("/inv-argument", w2)):
+        if w is not None and not (w.shape == g1.shape and np.all(np.isfinite(w) == np.isfinite(g1)) and
+                                  np.allclose(w, g1, rtol=1e-9, atol=1e-9, equal_nan=True)):
+            v.append({"key": "o_to_pgl/form/hom-wrapper%s" % how,
+                      "msg": "lie.hom.so21_to_sl2(bilinear_form=B)(S) = %s differs from lie.o_to_pgl(S, bilinear_form=B) = %s for B = M^T J M, M = %s, S = M^-1 sl2_to_so21(%s) M" % (
+                          fmt(w), fmt(g1), fmt(M), fmt(A))})
     tol = 1e-7 * (1 + float(np.max(np.abs(A))) ** 2)
     if not (np.all(np.isfinite(g1)) and abs(float(np.linalg.det(g1)) - 1.0) <= tol):
         v.append({"key": "o_to_pgl/form/determinant", "msg": "o_to_pgl(M^-1 sl2_to_so21(%s) M, form=M^T J M) = %s has determinant %.6g (M = %s)" % (fmt(A), fmt(g1), float(np.linalg.det(g1)), fmt(M))})
@@ -937,8 +995,11 @@ def run(ctx):
                "points with at most two non-zero coordinates in {1,2} decide the laws for all real and complex matrices")
     ctx.assume("float64/complex128 inputs (lie.sl2_irrep accumulates in the input dtype; integer arrays are outside the property)")
     ctx.assume("arrays of matrices are demanded for the maps written for shape (..., k, k): sl2_irrep, sl2_to_so21, slc_to_slr, "
-               "block_include; gln_adjoint, sln_adjoint, sl2c_to_so31, sl2c_herm_action, o_to_pgl take one matrix")
-    ctx.assume("gln_adjoint / sln_adjoint are called with dtype='float64' (without dtype the result is an object array, compared after conversion)")
+               "block_include, and for o_to_pgl (docstring: (..., 3, 3) -> (..., 2, 2); homomorphism up to sign PER MATRIX of the array); "
+               "gln_adjoint, sln_adjoint, sl2c_to_so31, sl2c_herm_action take one matrix")
+    ctx.assume("adjoint-alphabet / adjoint-complex: gln_adjoint / sln_adjoint values are compared after conversion to float64 / complex128; "
+               "adjoint-options demands in addition that the image of a real (float or integer) ndarray is a floating-point array for "
+               "every combination of the options, the defaults included, and that utils.invert accepts it and returns Ad(g^-1)")
     ctx.assume("o_to_pgl: recovery demanded for determinant-one integer matrices; homomorphism up to sign on the images of "
                "determinant +-1 matrices under sl2_to_so21")
     ctx.tolerances["grid identities of sl2_irrep, slc_to_slr, block_include"] = "exact (==): all intermediate integers are < 2^53 (asserted per block)"
@@ -1021,7 +1082,8 @@ def run(ctx):
                              "complex": "homomorphism law and values on all pairs of the Gaussian alphabet, n = 2..6"}, chunk=1)
     if want("shapes"):
         maps = ["sl2_irrep:2", "sl2_irrep:3", "sl2_irrep:4", "sl2_to_so21", "slc_to_slr:1", "slc_to_slr:2", "slc_to_slr:3",
-                "block_include:2:4", "block_include:3:3", "block_include:1:2"]
+                "block_include:2:4", "block_include:3:3", "block_include:1:2",
+                "o_to_pgl:default", "o_to_pgl:to_sl2", "o_to_pgl:form=1", "o_to_pgl:form=2", "o_to_pgl:form=3"]
         if not q:
             maps += ["sl2_irrep:5", "sl2_irrep:6"]
         cases = [{"map": m, "shape": list(s)} for m in maps for s in SHAPES]
@@ -1047,7 +1109,8 @@ def run(ctx):
         fcases = [{"bound": 2, "form": f, "i": i} for f in range(len(FORM_CONJ)) for i in range(0, n1, 3 if q else 1)]
         ctx.product("o_to_pgl-forms", "checks.c17:case_pgl_form", fcases,
                     domains={"forms": "M^T diag(-1,1,1) M for %d matrices M (scaling, shear, generic, permutation)" % len(FORM_CONJ),
-                             "isometries": "M^-1 sl2_to_so21(A) M, A over all det-1 integer matrices in [-2,2], all ordered pairs"}, chunk=2)
+                             "isometries": "M^-1 sl2_to_so21(A) M, A over all det-1 integer matrices in [-2,2], all ordered pairs",
+                             "routes": ["lie.o_to_pgl(S, bilinear_form=B)", "lie.hom.so21_to_sl2(bilinear_form=B)(S) and (S, inv=S^-1), bound to the direct call"]}, chunk=2)
         ctx.product("o_to_pgl", "checks.c17:case_pgl", cases,
                     domains={"alphabet": "all integer 2x2 matrices with entries in [-%d,%d] and det +-1 (%d); recovery for det 1, "
                                          "homomorphism up to sign for every ordered pair" % (bound, bound, n)}, chunk=4)
